@@ -2,8 +2,9 @@
 import common
 from props import c12
 
-RULE = ("the C12 stream (command x parameter x raw-kind matrix, valid and single-fault models) plus single-character corruptions "
-        "of valid files, quoted strings with complete/truncated/illegal escapes and non-ASCII text, odd list/tuple/number "
+RULE = ("the C12 stream (command x parameter x raw-kind matrix, valid and single-fault models) plus the parser stream of C10 (valid "
+        "renderings, single-character and stray-token corruptions incl. stray numerals, token soups, unquoted multi-word text: anything "
+        "but SyntaxError leaving Parser.parse is a failure) plus single-character corruptions of valid files, quoted strings with complete/truncated/illegal escapes and non-ASCII text, odd list/tuple/number "
         "expressions (mixed lists, 5000-digit integers, 60-deep nesting), and CSV content faults (empty file, header only, "
         "missing column, ragged rows, blank lines, non-numeric cells, columns of different length); the exception type at the "
         "from_source()/run() boundary is recorded, and a sample of the models plus every CSV fault is run through the "
@@ -19,5 +20,15 @@ def run(ctx, proof):
         res = c12.run(ctx, proof)
     finally:
         c12.PROP = old
+    # the parser side: the C10 stream (valid renderings, single-character and stray-token corruptions, token soups, unquoted
+    # multi-word text) -- whatever leaves Parser.parse other than SyntaxError is recorded by the parse driver as C13:escape:*
+    n = ctx.scale(300, 4000)
+    data, err = common.run_driver_json(ctx, "parse_driver.py", ["C13", n], timeout=3000)
+    if data is None:
+        res.setdefault("errors", []).append(err)
+    else:
+        res["oracle_failures"] = list(res.get("oracle_failures", [])) + data["oracle_failures"]
+        res["evaluations"] = int(res.get("evaluations", 0)) + data["evaluations"]
+        res.setdefault("distribution", {})["parser_stream"] = {k: data["distribution"].get(k) for k in ("valid", "corrupted", "soup", "multiword", "accepted", "rejected")}
     res["rule"] = RULE
     return res
